@@ -464,6 +464,12 @@ pub struct TDoc {
     /// across the values of one document
     #[serde(default)]
     pub json_more: Vec<(u8, u8)>,
+    /// one more JSON value {p<n>: "w1 w2"}: hundreds of distinct paths in one segment
+    #[serde(default)]
+    pub json_wide: Option<u16>,
+    /// a second such value in the same document
+    #[serde(default)]
+    pub json_wide2: Option<u16>,
 }
 #[derive(Clone, Debug, Serialize, Deserialize)]
 pub struct TypedCase {
@@ -530,11 +536,27 @@ impl Sub for Typed {
             prop::collection::vec((0u8..4, 0u8..4, -3i16..4), 0..4),
             prop::collection::vec((0u8..3, 0u8..4), 0..4),
         )
-            .prop_map(|(u, i, f, date, b, bytes, ip, facet, json, json_more)| TDoc { u, i, f, date, b, bytes, ip, facet, json, json_more });
-        (prop::collection::vec(doc, 0..50), prop_oneof![3 => Just(1u8), 1 => 4u8..8]).prop_map(|(docs, repeat)| TypedCase { docs, repeat }).boxed()
+            .prop_map(|(u, i, f, date, b, bytes, ip, facet, json, json_more)| TDoc { u, i, f, date, b, bytes, ip, facet, json, json_more, json_wide: None, json_wide2: None });
+        let generic = (prop::collection::vec(doc, 0..50), prop_oneof![3 => Just(1u8), 1 => 4u8..8]).prop_map(|(docs, repeat)| TypedCase { docs, repeat });
+        // hundreds of distinct JSON paths in one segment, and documents holding text under several of them - among them
+        // paths that were first seen 256, 512, ... paths apart
+        let wide = (260u16..700, prop::collection::vec((any::<u16>(), any::<u16>(), 0u8..4), 1..6)).prop_map(|(n, pairs)| {
+            let empty = || TDoc { u: vec![], i: vec![], f: vec![], date: vec![], b: vec![], bytes: vec![], ip: vec![], facet: vec![], json: vec![], json_more: vec![], json_wide: None, json_wide2: None };
+            let mut docs: Vec<TDoc> = (0..n).map(|k| TDoc { json_wide: Some(k), ..empty() }).collect();
+            for (a, d, v) in pairs {
+                // a document with text under path p<a> and under the path seen 256 * d paths later (or earlier)
+                let a = a % n;
+                let b = ((a as u32 + 256 * (1 + d as u32 % 2)) % n as u32) as u16;
+                docs.push(TDoc { json_wide: Some(a), json_wide2: Some(b), ..empty() });
+                docs.push(TDoc { json_wide: Some(b), json_wide2: Some(a), json_more: vec![(v, v)], ..empty() });
+                docs.push(TDoc { json_wide: Some(a), json: vec![(v, 2, 3)], ..empty() });
+            }
+            TypedCase { docs, repeat: 1 }
+        });
+        prop_oneof![30 => generic, 1 => wide].boxed()
     }
     fn mandatory_labels(&self, _t: Tier) -> Vec<&'static str> {
-        vec!["u64", "i64", "f64", "date", "bool", "bytes", "ip", "facet", "json", "json_multi_value_positions", "list_len>128", "extreme_values"]
+        vec!["u64", "i64", "f64", "date", "bool", "bytes", "ip", "facet", "json", "json_multi_value_positions", "json_more_than_256_paths", "list_len>128", "extreme_values"]
     }
     fn run(&self, c: &TypedCase, cx: &Ctx) -> CaseResult {
         let mut sb = Schema::builder();
@@ -574,6 +596,7 @@ impl Sub for Typed {
         let mut json_model: BTreeMap<Vec<u8>, (Term, Vec<u32>)> = BTreeMap::new();
         // (term bytes) -> doc -> positions, for the string leaves of the additional JSON values
         let mut json_pos_model: BTreeMap<Vec<u8>, (Term, BTreeMap<u32, Vec<u32>>)> = BTreeMap::new();
+        let mut wide_paths = false;
         let fkey = |x: f64| -> u64 {
             // order-preserving map of f64 (independent re-implementation)
             let b = x.to_bits();
@@ -631,7 +654,7 @@ impl Sub for Typed {
                     push(&mut model, (7, OK::Facet(anc.encoded_str().as_bytes().to_vec())), Term::from_facet(ffacet, &anc), d32);
                 }
             }
-            if !td.json.is_empty() {
+            if !td.json.is_empty() || td.json_wide.is_some() || td.json_wide2.is_some() {
                 let mut obj = serde_json::Map::new();
                 for (k, kind, v) in &td.json {
                     let key = format!("k{k}");
@@ -696,6 +719,23 @@ impl Sub for Typed {
                     }
                 }
                 doc.add_object(fjson, obj.into_iter().map(|(k, v)| (k, OwnedValue::from(v))).collect());
+                for n in td.json_wide.iter().chain(td.json_wide2.iter().filter(|x| Some(**x) != td.json_wide)) {
+                    let key = format!("p{n}");
+                    let words = vec!["w1".to_string(), "w2".to_string()];
+                    note(&mut json_pos_model, &mut path_end, &key, &words);
+                    for w in &words {
+                        let mut t = Term::from_field_json_path(fjson, &key, false);
+                        t.append_type_and_str(w);
+                        let e = json_model.entry(t.serialized_value_bytes().to_vec()).or_insert_with(|| (t.clone(), vec![]));
+                        if e.1.last() != Some(&d32) {
+                            e.1.push(d32);
+                        }
+                    }
+                    let mut o2 = serde_json::Map::new();
+                    o2.insert(key, serde_json::Value::String(words.join(" ")));
+                    doc.add_object(fjson, o2.into_iter().map(|(k, v)| (k, OwnedValue::from(v))).collect());
+                    wide_paths = true;
+                }
                 for (k, v) in &td.json_more {
                     let key = format!("k{k}");
                     let words = vec![format!("w{v}"), format!("w{}", v + 1)];
@@ -788,6 +828,7 @@ impl Sub for Typed {
                 }
             }
             cx.label_if(c.docs.iter().any(|d| !d.json.is_empty() && !d.json_more.is_empty()), "json_multi_value_positions");
+            cx.label_if(wide_paths && c.docs.len() > 256, "json_more_than_256_paths");
         }
         cx.label_if(longest > 128, "list_len>128");
         cx.label_if(c.docs.iter().any(|d| d.u.iter().any(|x| *x < 4) || d.i.iter().any(|x| *x == i16::MIN || *x == i16::MAX) || d.f.iter().any(|x| *x == i16::MIN || *x == i16::MAX || *x == 1)), "extreme_values");
